@@ -91,7 +91,10 @@ Inductive case :=
 | Stream (cache max : Z) (items : list citem) (slen scs : Z) (rchunks : list (Z * Z))
          (o_acc o_hand : list obs) (o_sig : list Z) (o_err o_reads o_bytes o_badreq : Z)
 (* DecodeHeader called directly on every prefix of bs (lengths 0 .. length bs) *)
-| Hdr (bs : list Z) (o : list hobs).
+| Hdr (bs : list Z) (o : list hobs)
+(* the handler keeps (hijacks) every message: what it read on delivery, and what the same messages
+   read after the rest of the stream went through the connection's receive buffer *)
+| Held (o_hand o_held : list obs).
 
 Definition obs_of_item (m : mitem) : obs :=
   Ob (m_code m) (blen (m_tok m)) (fsum (m_tok m)) (blen (m_pay m)) (fsum (m_pay m)).
@@ -129,6 +132,7 @@ Definition agrees (c : case) : bool :=
     zlist_eqb o_sig (map m_code (filter (fun m => is_signal (m_code m)) (out st1))) &&
     (o_err =? err_class (st st1)) && (o_reads =? reads) && (o_bytes =? bytes)
   | Hdr bs o => list_eqb hobs_eqb o (hdr_prefixes (S (length bs)) 0 bs)
+  | Held o_hand o_held => obs_list_eqb o_hand o_held
   end.
 
 (* the property (Spec) on the OBSERVED output *)
@@ -137,6 +141,7 @@ Definition pclass (c : case) : N :=
   | Stream cache max items slen scs rchunks o_acc o_hand o_sig o_err o_reads o_bytes o_badreq =>
     c07_class max (map to_sitem items) (unrle rchunks) o_hand o_sig o_err o_reads
   | Hdr bs o => if hdr_stable None o then 0%N else 7%N
+  | Held o_hand o_held => if obs_list_eqb o_hand o_held then 0%N else 8%N
   end.
 
 Definition mismatches (cs : list case) : list N := bad_indices (fun c => negb (agrees c)) cs.
